@@ -540,6 +540,7 @@ impl ChildVerdict {
                 what: format!("the process running the case crashed: {d}"),
                 sig: "crash".into(),
             }),
+            ChildVerdict::Hang(d) if d.starts_with("livelock: ") => Some(Violation { what: d.clone(), sig: "livelock".into() }),
             ChildVerdict::Hang(d) => Some(Violation {
                 what: format!("deadlock: {d}"),
                 sig: "deadlock".into(),
@@ -556,7 +557,15 @@ pub struct HangDetector {
     pid: u32,
     first: Option<(Instant, u64, usize)>,
     samples: u32,
+    /// livelock rule: (ticks of the harness's own threads, ticks of the crate's hot-reloading threads) when every
+    /// thread of the harness was first seen asleep
+    live_first: Option<(u64, u64)>,
+    live_burnt: u64,
 }
+
+/// CPU (in clock ticks, 100 per second) that the crate's hot-reloading thread may burn while every thread of the
+/// harness sleeps without using any. Nothing in the harness makes that thread compute for more than a second.
+const LIVELOCK_TICKS: u64 = 2500;
 
 impl HangDetector {
     pub fn new(pid: u32) -> Self {
@@ -564,11 +573,56 @@ impl HangDetector {
             pid,
             first: None,
             samples: 0,
+            live_first: None,
+            live_burnt: 0,
         }
     }
     pub fn reset(&mut self) {
         self.first = None;
         self.samples = 0;
+    }
+    /// True when, since some earlier sample, every thread that is not one of the crate's `assets_hot_reload`
+    /// threads has been asleep without using any CPU while those threads used more than `LIVELOCK_TICKS`:
+    /// everybody waits for a hot-reloading thread that computes for ever. Measured in CPU consumed, not in time.
+    pub fn sample_livelock(&mut self) -> bool {
+        let ts = procfs::threads_of(self.pid);
+        if ts.is_empty() {
+            self.live_first = None;
+            return false;
+        }
+        let (mut own, mut theirs, mut own_asleep, mut any_theirs) = (0u64, 0u64, true, false);
+        for t in &ts {
+            if t.comm.starts_with("assets_hot_relo") {
+                theirs += t.ticks;
+                any_theirs = true;
+            } else {
+                own += t.ticks;
+                own_asleep &= t.state == 'S';
+            }
+        }
+        if !own_asleep || !any_theirs {
+            self.live_first = None;
+            return false;
+        }
+        match self.live_first {
+            Some((own0, theirs0)) if own0 == own && theirs >= theirs0 => {
+                self.live_burnt = theirs - theirs0;
+                self.live_burnt > LIVELOCK_TICKS
+            }
+            _ => {
+                self.live_first = Some((own, theirs));
+                false
+            }
+        }
+    }
+    pub fn describe_livelock(&self) -> String {
+        let ts = procfs::threads_of(self.pid);
+        let names: Vec<String> = ts.iter().map(|t| format!("{}:{}", t.comm, t.state)).collect();
+        format!(
+            "every thread of the harness has been asleep without using any CPU while the crate's hot-reloading thread used {} s of CPU without letting anybody go on [{}]",
+            self.live_burnt / 100,
+            names.join(" ")
+        )
     }
     pub fn sample(&mut self) -> bool {
         match procfs::all_asleep(self.pid) {
@@ -664,6 +718,12 @@ pub fn run_case_in_child(prop: &dyn Prop, case: &Value, repeats: u32, hang_detec
         }
         if hang_detect && start.elapsed() > Duration::from_millis(700) && det.sample() {
             let d = det.describe();
+            let _ = child.kill();
+            let _ = child.wait();
+            break ChildVerdict::Hang(d);
+        }
+        if hang_detect && start.elapsed() > Duration::from_secs(5) && det.sample_livelock() {
+            let d = format!("livelock: {}", det.describe_livelock());
             let _ = child.kill();
             let _ = child.wait();
             break ChildVerdict::Hang(d);
@@ -1008,6 +1068,18 @@ pub fn supervise(prop: &dyn Prop, tier: Tier) -> RunResult {
                             v: Violation {
                                 what: format!("deadlock: {d}"),
                                 sig: "deadlock".into(),
+                            },
+                        });
+                        break 'main;
+                    }
+                    if plan.hang_detect && started.elapsed() > Duration::from_secs(5) && ws.det.sample_livelock() {
+                        let d = ws.det.describe_livelock();
+                        found = Some(Found {
+                            idx,
+                            case: None,
+                            v: Violation {
+                                what: format!("livelock: {d}"),
+                                sig: "livelock".into(),
                             },
                         });
                         break 'main;
